@@ -125,13 +125,26 @@ func safely(f func() string) (res string) {
 		}()
 		done <- f()
 	}()
+	limit := 90 * time.Second // generous: the machine may be shared with other checks
+	if hungOps > 0 {
+		limit = 15 * time.Second
+	}
 	select {
 	case r := <-done:
 		return r
-	case <-time.After(90 * time.Second): // generous: the machine may be shared with other checks
+	case <-time.After(limit):
+		// an implementation that hangs on a whole family of inputs must not stall the check: after the third
+		// operation that did not return the process stops, and the runner reports the pending operation
+		hungOps++
+		if hungOps >= 3 {
+			fmt.Fprintln(os.Stderr, "fatal error: operation did not return (third hung operation of this process; stopping)")
+			os.Exit(3)
+		}
 		return "timeout"
 	}
 }
+
+var hungOps int
 
 var lastPanic string
 
